@@ -33,6 +33,12 @@ type target struct {
 	Dep  bool   // Pkg is the import path of a module the repository depends on (sources in the module cache)
 	Name string // function name
 	As   string
+	// FRAGMENT targets: a statement RANGE of a function / method body (possibly inside a function literal of it).
+	Recv string   // receiver type name when Name is a method (fragments only)
+	From string   // the first statement of the range: the unique statement of the function whose source text starts with From
+	To   string   // the last statement: the first statement at or after From in the same statement list starting with To
+	Out  []string // variables (or `x.f` field pseudo-variables) whose values after the range are the result
+	Cond bool     // append the condition of the `if` statement that FOLLOWS the range (evaluated after the range) to the result
 }
 
 var targets = []target{
@@ -58,6 +64,16 @@ var targets = []target{
 	{Pkg: "bridgedesc", Name: "CanonicalRPCName"},
 	// C13
 	{Pkg: "webbridge", Name: "closeReason"},
+	// C03: PatternRouter.RouteHTTP — leading-slash test + split, and the per-route verb cut (statement ranges)
+	{Pkg: "routing", Recv: "PatternRouter", Name: "RouteHTTP", As: "routeHTTP_split",
+		From: "if !strings.HasPrefix(path", To: "lastPathComponent :=", Out: []string{"pathComponents", "lastPathComponent"}},
+	{Pkg: "routing", Recv: "PatternRouter", Name: "RouteHTTP", As: "routeHTTP_verbIdx",
+		From: "verbIdx := -1", To: "if verbIdx == 0", Out: []string{"verbIdx"}},
+	// C08: gRPCWebStream.recv length decision, OnMessage flow-control byte / >= 6 handling (statement ranges)
+	{Pkg: "webbridge", Recv: "gRPCWebStream", Name: "recv", As: "recv_length",
+		From: "length := binary.BigEndian.Uint32", To: "if length > maxRecvMessageSize", Out: []string{"length"}},
+	{Pkg: "webbridge", Recv: "gwsGRPCWebHandler", Name: "OnMessage", As: "onMessage_frame",
+		From: "if len(data) > 0 {", To: "if len(data) >= 6 {", Out: []string{"stream.closed", "event.err", "event.data"}, Cond: true},
 	// C10: the code → HTTP status table webbridge.errorStatus uses lives in the grpc-gateway dependency
 	{Pkg: "github.com/grpc-ecosystem/grpc-gateway/v2/runtime", Dep: true, Name: "HTTPStatusFromCode"},
 }
@@ -204,6 +220,59 @@ type tr struct {
 	libUsed     map[string]bool
 	abstract    map[string]string // uninterpreted library functions used: parameter name -> Lean type
 	hasAbstract map[string]bool   // translated functions that take such parameters (calling them is outside the subset)
+	// fragment mode
+	frag     bool
+	fragLo   token.Pos
+	fragHi   token.Pos
+	fragRets map[*ast.ReturnStmt]int
+	fragOut  []types.Object
+	fragCond ast.Expr
+	pseudos  map[[2]types.Object]*types.Var // (base variable, field) -> pseudo-variable of `x.f`
+}
+
+// `x.f` with x a local variable and f a struct field, inside a fragment: a pseudo-variable (assumes that two
+// different base variables of the fragment do not alias the same struct)
+func (t *tr) pseudo(x *ast.SelectorExpr) *types.Var {
+	if !t.frag {
+		return nil
+	}
+	sel, ok := t.info.Selections[x]
+	if !ok || sel.Kind() != types.FieldVal {
+		return nil
+	}
+	id, ok := x.X.(*ast.Ident)
+	if !ok {
+		return nil
+	}
+	base, ok := t.info.Uses[id].(*types.Var)
+	if !ok || base.IsField() || base.Parent() == base.Pkg().Scope() {
+		return nil
+	}
+	key := [2]types.Object{base, sel.Obj()}
+	if v, ok := t.pseudos[key]; ok {
+		return v
+	}
+	v := types.NewVar(base.Pos(), base.Pkg(), id.Name+"_"+x.Sel.Name, sel.Type())
+	t.pseudos[key] = v
+	return v
+}
+
+func (t *tr) fragDone() string {
+	var p []string
+	for _, o := range t.fragOut {
+		p = append(p, t.nameOf(o))
+	}
+	if t.fragCond != nil {
+		p = append(p, t.expr(t.fragCond))
+	}
+	v := p[0]
+	if len(p) > 1 {
+		v = "(" + strings.Join(p, ", ") + ")"
+	}
+	if len(t.fragRets) > 0 {
+		return "GB.Trans.Frag.done " + v
+	}
+	return v
 }
 
 func (t *tr) nameOf(o types.Object) string {
@@ -305,6 +374,11 @@ func (t *tr) expr(e ast.Expr) string {
 			fail(x, "nil outside the subset")
 		}
 		fail(x, "identifier %s (%T) outside the subset", x.Name, o)
+	case *ast.SelectorExpr:
+		if pv := t.pseudo(x); pv != nil {
+			return t.nameOf(pv)
+		}
+		fail(x, "selector expression %s.%s outside the subset", types.ExprString(x.X), x.Sel.Name)
 	case *ast.UnaryExpr:
 		a := t.expr(x.X)
 		switch x.Op {
@@ -319,6 +393,9 @@ func (t *tr) expr(e ast.Expr) string {
 	case *ast.BinaryExpr:
 		return t.binary(x)
 	case *ast.IndexExpr:
+		if t.lt(x.X) == tStrs && t.lt(x.Index) == tInt {
+			return "(GB.Trans.idxS " + t.expr(x.X) + " " + t.expr(x.Index) + ")"
+		}
 		if t.lt(x.X) != tBytes {
 			fail(x, "indexing of %s outside the subset", t.typeOf(x.X))
 		}
@@ -391,11 +468,18 @@ func (t *tr) binary(x *ast.BinaryExpr) string {
 		if t.isNil(x.X) {
 			other = x.Y
 		}
-		if id, ok := other.(*ast.Ident); ok && t.typeOf(other).String() == "error" {
+		isVar := false
+		switch o := other.(type) {
+		case *ast.Ident:
+			isVar = true
+		case *ast.SelectorExpr:
+			isVar = t.pseudo(o) != nil
+		}
+		if isVar && t.typeOf(other).String() == "error" {
 			if x.Op == token.NEQ {
-				return t.expr(id)
+				return t.expr(other)
 			}
-			return "(!" + t.expr(id) + ")"
+			return "(!" + t.expr(other) + ")"
 		}
 		fail(x, "comparison of %s with nil outside the subset", t.typeOf(other))
 	}
@@ -534,6 +618,12 @@ func (t *tr) call(x *ast.CallExpr) string {
 	case *ast.SelectorExpr:
 		if sel, ok := t.info.Selections[f]; ok {
 			// method call
+			if sel.Recv().String() == "encoding/binary.bigEndian" && f.Sel.Name == "Uint32" && len(x.Args) == 1 && t.lt(x.Args[0]) == tBytes {
+				if sx, ok := f.X.(*ast.SelectorExpr); ok && sx.Sel.Name == "BigEndian" {
+					t.libUsed["encoding/binary.BigEndian.Uint32"] = true
+					return "(GB.Trans.beUint32 " + t.expr(x.Args[0]) + ")"
+				}
+			}
 			recv := leanType(f.X, sel.Recv())
 			if recv == tHdr && (f.Sel.Name == "Values" || f.Sel.Name == "Get") && len(x.Args) == 1 {
 				t.libUsed["(net/http.Header)."+f.Sel.Name] = true
@@ -684,7 +774,7 @@ func (t *tr) libCall(x *ast.CallExpr, o *types.Func) string {
 			return bytesLit("")
 		}
 		return "(" + strings.Join(parts, " ++ ") + ")"
-	case "fmt.Errorf", "errors.New":
+	case "fmt.Errorf", "errors.New", "google.golang.org/grpc/status.Error", "google.golang.org/grpc/status.Errorf":
 		// a non-nil error; the message is not modelled (error results are Bool: true = non-nil)
 		return "true"
 	case "unicode/utf8.RuneStart":
@@ -756,6 +846,9 @@ func (t *tr) stmts(list []ast.Stmt, c ctx, d int) string {
 		if c.loop {
 			return ind(d) + "GB.Trans.Ctl.next " + t.stateTuple(c.state) + "\n"
 		}
+		if t.frag {
+			return ind(d) + t.fragDone() + "\n"
+		}
 		return ind(d) + t.ret(c, t.namedResults(t.decl)) + "\n"
 	}
 	s, rest := list[0], list[1:]
@@ -765,6 +858,10 @@ func (t *tr) stmts(list []ast.Stmt, c ctx, d int) string {
 	case *ast.BlockStmt:
 		return t.stmts(append(append([]ast.Stmt{}, x.List...), rest...), c, d)
 	case *ast.ReturnStmt:
+		if t.frag {
+			// a return inside a fragment: only WHICH return statement is taken is modelled, not its values
+			return ind(d) + t.ret(c, fmt.Sprintf("(GB.Trans.Frag.ret %d)", t.fragRets[x])) + "\n"
+		}
 		if len(x.Results) == 0 {
 			return ind(d) + t.ret(c, t.namedResults(x)) + "\n"
 		}
@@ -876,6 +973,11 @@ func (t *tr) simple(s ast.Stmt, c ctx, d int) string {
 }
 
 func (t *tr) lhsName(e ast.Expr) (string, string) {
+	if sx, ok := e.(*ast.SelectorExpr); ok {
+		if pv := t.pseudo(sx); pv != nil {
+			return t.nameOf(pv), leanType(e, pv.Type())
+		}
+	}
 	id, ok := e.(*ast.Ident)
 	if !ok {
 		fail(e, "assignment to %T (not a plain variable) outside the subset", e)
@@ -1040,7 +1142,10 @@ func (t *tr) assignedOuter(body *ast.BlockStmt) []types.Object {
 	seen := map[types.Object]bool{}
 	add := func(e ast.Expr) {
 		id, ok := e.(*ast.Ident)
-		if !ok || id.Name == "_" {
+		if !ok {
+			fail(e, "assignment to %T (not a plain variable) inside a loop body outside the subset", e)
+		}
+		if id.Name == "_" {
 			return
 		}
 		o := t.info.Uses[id]
@@ -1319,7 +1424,154 @@ type result struct {
 	text   string
 }
 
-func translate(p *packages.Package, fd *ast.FuncDecl, name string, leanOf map[*types.Func]string) (res result, err error) {
+var srcCache = map[string][]byte{}
+
+func srcText(n ast.Node) string {
+	a, b := fset.Position(n.Pos()), fset.Position(n.End())
+	data, ok := srcCache[a.Filename]
+	if !ok {
+		data, _ = os.ReadFile(a.Filename)
+		srcCache[a.Filename] = data
+	}
+	if a.Offset < 0 || b.Offset > len(data) || a.Offset > b.Offset {
+		return ""
+	}
+	return string(data[a.Offset:b.Offset])
+}
+
+// the statement range [From … To] of a fragment target, and the statement that follows it (nil if none)
+func findRange(fd *ast.FuncDecl, tg target) ([]ast.Stmt, ast.Stmt) {
+	var found [][]ast.Stmt
+	var nexts []ast.Stmt
+	try := func(list []ast.Stmt) {
+		for i, s := range list {
+			if !strings.HasPrefix(srcText(s), tg.From) {
+				continue
+			}
+			for j := i; j < len(list); j++ {
+				if strings.HasPrefix(srcText(list[j]), tg.To) {
+					found = append(found, list[i:j+1])
+					if j+1 < len(list) {
+						nexts = append(nexts, list[j+1])
+					} else {
+						nexts = append(nexts, nil)
+					}
+					return
+				}
+			}
+			fail(s, "fragment: no statement starting with %q follows the one starting with %q in its statement list", tg.To, tg.From)
+		}
+	}
+	ast.Inspect(fd.Body, func(n ast.Node) bool {
+		switch y := n.(type) {
+		case *ast.BlockStmt:
+			try(y.List)
+		case *ast.CaseClause:
+			try(y.Body)
+		}
+		return true
+	})
+	if len(found) != 1 {
+		fail(fd, "fragment: %d statements start with %q (exactly one expected)", len(found), tg.From)
+	}
+	return found[0], nexts[0]
+}
+
+func (t *tr) setupFragment(fd *ast.FuncDecl, tg target) ([]ast.Stmt, []string) {
+	list, next := findRange(fd, tg)
+	t.frag = true
+	t.fragLo, t.fragHi = list[0].Pos(), list[len(list)-1].End()
+	t.fragRets = map[*ast.ReturnStmt]int{}
+	t.pseudos = map[[2]types.Object]*types.Var{}
+	var nodes []ast.Node
+	for _, s := range list {
+		nodes = append(nodes, s)
+	}
+	if tg.Cond {
+		ifs, ok := next.(*ast.IfStmt)
+		if !ok || ifs.Init != nil {
+			fail(list[len(list)-1], "fragment: Cond needs an `if` statement without init after the range")
+		}
+		t.fragCond = ifs.Cond
+		nodes = append(nodes, ifs.Cond)
+	}
+	byName := map[string][]types.Object{}
+	seen := map[types.Object]bool{}
+	var params []string
+	note := func(name string, o types.Object) {
+		for _, q := range byName[name] {
+			if q == o {
+				return
+			}
+		}
+		byName[name] = append(byName[name], o)
+	}
+	param := func(n ast.Node, o types.Object) {
+		if seen[o] {
+			return
+		}
+		seen[o] = true
+		params = append(params, fmt.Sprintf("(%s : %s)", t.nameOf(o), leanType(n, o.Type())))
+	}
+	for _, nd := range nodes {
+		ast.Inspect(nd, func(n ast.Node) bool {
+			switch y := n.(type) {
+			case *ast.FuncLit:
+				fail(y, "function literal outside the subset")
+			case *ast.ReturnStmt:
+				t.fragRets[y] = len(t.fragRets)
+			case *ast.SelectorExpr:
+				if pv := t.pseudo(y); pv != nil {
+					note(types.ExprString(y), pv)
+					param(y, pv)
+					return false
+				}
+			case *ast.Ident:
+				if o := t.info.Defs[y]; o != nil {
+					if _, ok := o.(*types.Var); ok {
+						note(y.Name, o)
+					}
+					return true
+				}
+				v, ok := t.info.Uses[y].(*types.Var)
+				if !ok || v.IsField() || v.Parent() == v.Pkg().Scope() {
+					return true
+				}
+				if v.Pos() >= t.fragLo && v.Pos() < t.fragHi {
+					return true
+				}
+				note(y.Name, v)
+				param(y, v)
+			}
+			return true
+		})
+	}
+	var outTypes []string
+	for _, nm := range tg.Out {
+		os := byName[nm]
+		if len(os) != 1 {
+			fail(list[0], "fragment: output %q names %d variables of the range (exactly one expected)", nm, len(os))
+		}
+		t.fragOut = append(t.fragOut, os[0])
+		outTypes = append(outTypes, leanType(list[0], os[0].Type()))
+	}
+	if t.fragCond != nil {
+		outTypes = append(outTypes, tBool)
+	}
+	if len(outTypes) == 0 {
+		fail(list[0], "fragment without outputs")
+	}
+	t.retType = outTypes[0]
+	if len(outTypes) > 1 {
+		t.retType = "(" + strings.Join(outTypes, " × ") + ")"
+	}
+	if len(t.fragRets) > 0 {
+		t.retType = "(GB.Trans.Frag " + t.retType + ")"
+	}
+	return list, params
+}
+
+func translate(p *packages.Package, fd *ast.FuncDecl, name string, leanOf map[*types.Func]string, tg target) (res result, err error) {
 	defer func() {
 		if r := recover(); r != nil {
 			if f, ok := r.(failure); ok {
@@ -1332,8 +1584,37 @@ func translate(p *packages.Package, fd *ast.FuncDecl, name string, leanOf map[*t
 	t := &tr{pkg: p, info: p.TypesInfo, decl: fd, names: map[types.Object]string{}, used: map[string]bool{"st": true, "r": true},
 		leanOf: leanOf, calls: map[string]bool{}, libUsed: map[string]bool{}, abstract: map[string]string{}}
 	t.used["toValidUTF8"] = true
-	if fd.Recv != nil {
+	if fd.Recv != nil && tg.From == "" {
 		fail(fd, "methods are outside the subset")
+	}
+	if tg.From != "" {
+		if fd.Body == nil {
+			fail(fd, "function without a body")
+		}
+		list, params := t.setupFragment(fd, tg)
+		body := t.stmts(list, ctx{}, 1)
+		res.Name = name
+		res.Source = rel(list[0].Pos())
+		res.Go = p.PkgPath + "." + fd.Name.Name
+		if tg.Recv != "" {
+			res.Go = p.PkgPath + "." + tg.Recv + "." + fd.Name.Name
+		}
+		for c := range t.calls {
+			res.Calls = append(res.Calls, c)
+		}
+		sort.Strings(res.Calls)
+		for c := range t.libUsed {
+			res.Lib = append(res.Lib, c)
+		}
+		sort.Strings(res.Lib)
+		if len(t.abstract) > 0 {
+			fail(fd, "fragment using an uninterpreted library function outside the subset")
+		}
+		last := list[len(list)-1]
+		res.text = fmt.Sprintf("/-- translated from the statements %s … line %d of `%s` (from %q to %q; outputs %s%s) -/\ndef %s %s : %s :=\n%s",
+			res.Source, fset.Position(last.End()).Line, res.Go, tg.From, tg.To, strings.Join(tg.Out, ", "),
+			map[bool]string{true: ", condition of the following if", false: ""}[tg.Cond], name, strings.Join(params, " "), t.retType, body)
+		return res, nil
 	}
 	if fd.Type.TypeParams != nil {
 		fail(fd, "generic functions are outside the subset")
@@ -1398,6 +1679,20 @@ func translate(p *packages.Package, fd *ast.FuncDecl, name string, leanOf map[*t
 	}
 	res.text = fmt.Sprintf("/-- translated from `%s` (%s) -/\ndef %s %s : %s :=\n%s", res.Go, res.Source, name, strings.Join(params, " "), t.retType, body)
 	return res, nil
+}
+
+func recvName(g *ast.FuncDecl) string {
+	if g.Recv == nil || len(g.Recv.List) != 1 {
+		return ""
+	}
+	e := g.Recv.List[0].Type
+	if st, ok := e.(*ast.StarExpr); ok {
+		e = st.X
+	}
+	if id, ok := e.(*ast.Ident); ok {
+		return id.Name
+	}
+	return "?"
 }
 
 func main() {
@@ -1467,7 +1762,7 @@ func main() {
 		var fd *ast.FuncDecl
 		for _, f := range p.Syntax {
 			for _, dcl := range f.Decls {
-				if g, ok := dcl.(*ast.FuncDecl); ok && g.Recv == nil && g.Name.Name == tg.Name {
+				if g, ok := dcl.(*ast.FuncDecl); ok && g.Name.Name == tg.Name && recvName(g) == tg.Recv {
 					fd = g
 				}
 			}
@@ -1487,12 +1782,14 @@ func main() {
 			continue
 		}
 		names[name] = tg.Pkg + "." + tg.Name
-		leanOf[p.TypesInfo.Defs[fd.Name].(*types.Func)] = name
+		if tg.From == "" {
+			leanOf[p.TypesInfo.Defs[fd.Name].(*types.Func)] = name
+		}
 		items = append(items, item{tg, p, fd, name})
 	}
 	var results []result
 	for _, it := range items {
-		r, err := translate(it.p, it.fd, it.name, leanOf)
+		r, err := translate(it.p, it.fd, it.name, leanOf, it.tg)
 		if err != nil {
 			fmt.Fprintf(os.Stderr, "trans: FAIL %s.%s: %v\n", it.tg.Pkg, it.tg.Name, err)
 			nerr++
